@@ -103,6 +103,11 @@ def config_chain(V, kinds):
             V.add_violation('configured-%s-not-in-effect' % kind, '%s header: Config chain %s: configured %s %s, the machine behaves as %s (%d of 326 chains affected)' % (h, chain, kind, exp, got, n), dict(rec, output=so[-3000:]))
         if not mine: V.samples.append({'probe': 'probe_config_chain.cpp', 'header': h, 'kinds': sorted(kinds), 'output': so.strip().splitlines()[-1][:200]})
 
+def ctor_forms(V):
+    """an automatically activated machine starts in its first declared state and dispatches to it, however it was constructed"""
+    for h in header_variants():
+        probe(V, 'probe_ctor_forms.cpp', ['VX_DEV_HEADER'] if h == 'dev' else [], 'constructor-form', 'construction from no context / lvalue / temporary / moved / reference / pointer context, with and without root head (%s header)' % h)
+
 def replay_probe(r):
     print(r.get('cmd', '')); print(r.get('output', '')[-3000:])
     p = subprocess.run(r['cmd'].split() + ['-o', os.path.join(BUILD, 'replay_probe')], stdout=subprocess.PIPE, stderr=subprocess.STDOUT, text=True)
@@ -203,6 +208,7 @@ def check_c14(tier):
     V = Verdict('C14', tier)
     V.assumptions = ['callbacks of the swept machines take no decisions (dispatch only); guard-decision behaviour is the subject of C02-C04']
     sweep(V, tier, ['root-auto', 'peer-manual-ser'], 200 if tier == 'quick' else 1700)
+    ctor_forms(V)
     # keep only what C14 judges: drop serialization predicates reported by the shared harness
     V.violations = [v for v in V.violations if not re.match(r'(save|load|buffer)', v['pred'])]
     return V.finish(rule='one machine per state count N and root flavour; every ordered pair (j,k) of states is driven with immediateChangeTo and the deliveries compared with the expected four callbacks; stateId<T>() checked by static_assert for every state')
@@ -451,7 +457,7 @@ def check_c19(tier):
     return V.finish(rule='every switch combination x standards x compilers x header variants of a feature-neutral public-API program is built with the project warning flags and run; all behaviour digests must be equal; on the explorer the complete d<=1 edge sets of a feature-neutral alphabet are compared across feature subsets; amalgamation compared byte for byte')
 
 # configuration-chain probe for the explorer-driven checks whose quantifier names the setting
-vc.POST_HOOKS['C01'] = lambda V, tier: config_chain(V, {'activation'})
+vc.POST_HOOKS['C01'] = lambda V, tier: (config_chain(V, {'activation'}), ctor_forms(V))
 vc.POST_HOOKS['C02'] = lambda V, tier: config_chain(V, {'limit', 'activation'})
 vc.POST_HOOKS['C04'] = lambda V, tier: config_chain(V, {'limit'})
 vc.POST_HOOKS['C06'] = lambda V, tier: config_chain(V, {'context'})
